@@ -8,7 +8,7 @@ from typing import Dict, List, Optional, Set, Tuple
 from ..core import astutil as A
 from ..core.index import AnalysisError, ClassInfo, FuncInfo
 from ..selftest import M
-from .common import may_conds, BASE_FILTER, BASE_IFILTER, T, attr_stores, calls_named, conds, every_origin, facts, need, subscript_stores, where
+from .common import may_conds, is_early_exit_guard, BASE_FILTER, BASE_IFILTER, T, attr_stores, calls_named, conds, every_origin, facts, need, subscript_stores, where
 from . import c13
 
 PRE = "ufo2ft.preProcessor"
@@ -43,6 +43,7 @@ def run(prog, chk):
         "sparse masters compile a subset of the compiler's tables, chosen by layerName; placeholders for missing component bases only in non-default masters (R09.5)",
         "every interpolatable filter applies its operation to every master that has the glyph: one loop over all glyph sets without early exit (R09.6)",
         "composites get a master wherever a decomposed component has one: location closure is transitive (R09.7, shared with C13)",
+        "the instantiator's cached per-glyph models are dropped whenever a step changed the glyph sets: unconditional clear in replace_source_layers, refresh under every step's 'modified' verdict (R09.8)",
     ]
     chk.not_decided += ["that cu2qu yields equal segment counts for all masters (fontTools)", "point compatibility of the output itself", "custom filters supplied by the caller"]
     r091(prog, chk)
@@ -51,6 +52,7 @@ def run(prog, chk):
     r094(prog, chk)
     r095(prog, chk)
     r096(prog, chk)
+    r098(prog, chk)
     c13.r135(prog, chk, "R09.7")
 
 
@@ -363,7 +365,68 @@ def r096(prog, chk):
     chk.minimum("R09.6", 5)
 
 
+# ----------------------------------------------------------------------------- R09.8
+def r098(prog, chk):
+    """Glyphs interpolated on demand for sparse masters come from per-glyph variation
+    models cached in the instantiator.  The cache is dropped whenever a step changed the
+    glyph sets: replace_source_layers always clears it, _update_instantiator always
+    calls it (when there is an instantiator), and every modifying step of the
+    interpolatable pre-processors calls _update_instantiator under its 'modified' verdict."""
+    ix = prog.ix
+    rs = ix.get_method("ufo2ft.instantiator.Instantiator", "replace_source_layers", own=True)
+    clears = [c for c in calls_named(rs, "clear") if T(c.func.value) == "self.glyph_mutators"]
+    early = [r for r in A.returns_of(rs.node)]
+    ok = len(clears) == 1 and not may_conds(prog, rs, clears[0]) and not early
+    chk.ob("R09.8", f"{rs.short}|the cached glyph models are always dropped", ok, where(rs), detail="self.glyph_mutators.clear() on every path",
+           message=f"{rs.short} can keep the cached per-glyph variation models (early return / conditional clear): glyphs interpolated for sparse masters after a later "
+                   f"filter or the curve conversion are computed from masters as they were before that step")
+    st = [n for n in A.body_nodes(rs.node) if isinstance(n, ast.Assign) and isinstance(n.targets[0], ast.Subscript) and T(n.targets[0].value) == "self.source_layers"]
+    ok = len(st) == 1 and not may_conds(prog, rs, st[0])
+    chk.ob("R09.8", f"{rs.short}|the source layers are always replaced", ok, where(rs), detail="self.source_layers[:] = [...]", nontrivial=False, message=f"{rs.short} does not always install the new layers")
+    ui = ix.get_method(BASEI, "_update_instantiator", own=True)
+    cs = [c for c in calls_named(ui, "replace_source_layers")]
+    ok = len(cs) == 1 and T(cs[0].args[0]) == "self.glyphSets"
+    if ok:
+        g = [c_ for c_ in may_conds(prog, ui, cs[0])]
+        ok = len(g) == 1 and T(g[0].test) == "self.instantiator is not None" and g[0].polarity is True
+    chk.ob("R09.8", f"{ui.short}|always hands the current glyph sets to the instantiator when there is one", ok, where(ui), detail="if self.instantiator is not None: self.instantiator.replace_source_layers(self.glyphSets)",
+           message=f"{ui.short} does not unconditionally refresh the instantiator with the current glyph sets")
+    n = 0
+    for cq, mname in ((BASEI, "_run_interpolatable"), (BASEI, "_run"), (TTFI, "process")):
+        m = ix.get_method(cq, mname, own=True)
+        ups = [c for c in calls_named(m, "_update_instantiator")]
+        for c in ups:
+            n += 1
+            fs = facts(prog, m, c)
+            truthy = [l for o, l, r in fs if o == "truthy"]
+            # the verdict tested is the result of the step that ran just before
+            okv = False
+            for t_ in truthy:
+                if "fonts_to_quadratic" in t_:
+                    okv = True
+                nm = [x for x in A.body_nodes(m.node) if isinstance(x, ast.Name) and x.id == t_]
+                for x in nm[:1]:
+                    for d in prog.reaching(m, x.id, c):
+                        if d.value is not None and (isinstance(d.value, ast.Call) or d.kind == "augassign"):
+                            okv = True
+            chk.ob("R09.8", f"{m.short}|{A.keytext(m.node, c)}|refresh under the step's own 'modified' verdict", okv and len(may_conds(prog, m, c)) >= 1, where(m, c), detail=f"guards: {truthy}",
+                   message=f"{m.short}: the instantiator is not refreshed exactly when the step reported modifications")
+        chk.ob("R09.8", f"{m.short}|refreshes the instantiator after its modifying step", len(ups) >= 1, where(m), detail=f"{len(ups)} call(s)",
+               message=f"{m.short} changes the glyph sets without refreshing the instantiator")
+    init = ix.get_method(BASEI, "__init__", own=True)
+    ups = [c for c in calls_named(init, "_update_instantiator")]
+    chk.ob("R09.8", f"{init.short}|instantiator pointed at the working glyph sets before any filter runs", len(ups) == 1 and not [c_ for c_ in may_conds(prog, init, ups[0]) if not is_early_exit_guard(prog, init, c_)], where(init), detail="self._update_instantiator() right after the glyph sets are built",
+           message=f"{init.short}: the instantiator is not switched to the pre-processor's glyph sets up front")
+    chk.minimum("R09.8", 8)
+
+
 MUTANTS = [
+    M("instantiator keeps its cached glyph models when handed the same layer objects (seeded C09c)", "ufo2ft/instantiator.py", "Instantiator.replace_source_layers",
+      "self.glyph_mutators.clear()", "if any((old is not new for (_, old), new in zip(self.source_layers, new_layers))):\n    self.glyph_mutators.clear()", rule="R09.8"),
+    M("curve conversion does not refresh the instantiator", "ufo2ft/preProcessor.py", "TTFInterpolatablePreProcessor.process",
+      "self._update_instantiator()", "pass", rule="R09.8"),
+    M("interpolatable filters never refresh the instantiator", "ufo2ft/preProcessor.py", "BaseInterpolatablePreProcessor._run_interpolatable",
+      "if modified:\n    self._update_instantiator()", "pass", rule="R09.8"),
     M("interpolatable flatten skips masters whose own glyph set shows nothing nested (seeded C09b)", "ufo2ft/filters/flattenComponents.py", "FlattenComponentsIFilter.filter",
       "if glyph is not None:\n    flattened |= _flattenGlyphComponents(glyph, interpolatedLayer or glyphSet)",
       "if glyph is None or not _haveNestedComponents(glyph, glyphSet):\n    continue\nflattened |= _flattenGlyphComponents(glyph, interpolatedLayer or glyphSet)", rule="R09.6"),
